@@ -13,8 +13,8 @@ from . import common
 ID = "C11"
 LEVEL = "fault_enumeration"
 BUDGET_S = {"quick": 0, "thorough": 600}
-RULE = ("case = one history write* ; F1..Fm. All finalisation sequences over {close(), exit, exit with an exception in "
-        "flight} with m <= 4 (quick; 24 sequences) or m <= 6 (thorough; 48), an exit needing a prior enter and occurring at "
+RULE = ("case = one history write* ; F1..Fm. All finalisation sequences over {close(), exit, exit with an Exception in "
+        "flight, exit with a non-Exception BaseException in flight} with m <= 4 (quick; 34 sequences) or m <= 6 (thorough; 69), an exit needing a prior enter and occurring at "
         "most once, crossed with "
         "writer type {VbsWriter, IpmWriter} x {VBS, 1014} x storage {SimFile, BytesIO, real file 'wb', real file 'w+b'} "
         "x seeded record lists (0..8 records, block-edge lengths) / message lists. distinct = distinct (writer, blocked, "
@@ -40,7 +40,7 @@ def fin_sequences(mmax):
     for m in range(1, mmax + 1):
         out.append(["close"] * m)
         for i in range(m):
-            for x in ("exit", "exit!"):
+            for x in ("exit", "exit!", "exit!!"):
                 s = ["close"] * m
                 s[i] = x
                 out.append(s)
@@ -51,7 +51,7 @@ def judge(scn, log=None):
     items = pipeline.scenario_items(scn)
     wr = pipeline.write_phase(scn, log=log, items=items)
     tag = f"{scn['level']}|blk={int(scn['blocked'])}"
-    allf = [o for o in scn["writer_ops"] if o in ("close", "exit", "exit!") or o.startswith("crowd:")]
+    allf = [o for o in scn["writer_ops"] if o in ("close", "exit", "exit!", "exit!!") or o.startswith("crowd:")]
     fins = [o for o in allf if not o.startswith("crowd:")]  # close / exit / exit!
     fails = []
     if wr.error:
@@ -129,7 +129,7 @@ def build(level, blocked, storage, lst, seq, many=False):
     writes = [f"write:{i}" for i in range(n)]
     if many and n:
         writes = [f"write_many:0:{n}"]
-    ops = (["enter"] if ("exit" in seq or "exit!" in seq) else []) + writes + list(seq)
+    ops = (["enter"] if any(x.startswith("exit") for x in seq) else []) + writes + list(seq)
     # (a "crowd:K" entry between finalisations creates, writes and finalises K other writers)
     scn["writer_ops"] = ops
     return scn
@@ -234,12 +234,12 @@ def minimise(scn, oracle):
             return False
 
     key = "records" if scn["level"] == "vbs" else "messages"
-    fins = [o for o in scn["writer_ops"] if o in ("close", "exit", "exit!") or o.startswith("crowd:")]
+    fins = [o for o in scn["writer_ops"] if o in ("close", "exit", "exit!", "exit!!") or o.startswith("crowd:")]
 
     def rebuild(items, fins, base):
         c = dict(base)
         c[key] = items
-        c["writer_ops"] = (["enter"] if ("exit" in fins or "exit!" in fins) else []) + [f"write:{i}" for i in range(len(items))] + fins
+        c["writer_ops"] = (["enter"] if any(x.startswith("exit") for x in fins) else []) + [f"write:{i}" for i in range(len(items))] + fins
         return c
 
     cur = dict(scn)
